@@ -53,6 +53,16 @@ def _special_models():
     out.append(M(F('Ünï', [R(1, 1, [F('ä')]), R(0, 1, [F('a b')]), R(1, 3, [F('Cc'), F('Dd'), F('Ee')])]),
                  [('c1', ('REQUIRES', 'ä', 'Cc')), ('c2', ('XOR', 'Dd', 'a b'))]))
     out.append(M(F('Fa', [R(0, 1, [F('Gg'), F('Hh'), F('Ii'), F('Jj')]), R(2, 3, [F('Kk'), F('Ll'), F('Mm'), F('Nn')])])))
+    # names that are not in Unicode normal form C
+    out.append(M(F('Cafe\u0301', [R(1, 2, [F('\u212bb'), F('e\u0300x'), F('Zz')])]), [('c1', ('REQUIRES', '\u212bb', 'Zz'))]))
+    # attributes: AFM-style domains with unsorted intervals / elements, and plain values of every kind
+    A = bd.afm_attr
+    out.append(M(F('Fa', [R(1, 1, [F('Bb', attrs=[('att', A([(20, 30), (3, 10), (12, 15)], [], '25', '3')), ('lab', A([], ['zz', 'aa', 'mm'], 'mm', 'zz'))])]),
+                          R(0, 1, [F('Dc', attrs=[('cost', A([(5, 5)], [], '5', '5'))])])])))
+    fz = sh.freeze
+    out.append(M(F('Fa', [R(1, 1, [F('Bb', attrs=[('lst', fz([3, 1, 2, 'b', 'a'])), ('map', fz({'z': 1, 'a': {'y': 2, 'b': 3}})), ('s', fz('text')),
+                                                   ('n', fz(None)), ('t', fz(True)), ('r', fz(2.5))])]),
+                          R(0, 1, [F('Dc', abstract=True, ftype='Integer', fcard=(0, 3))])])))
     return out
 
 
@@ -86,9 +96,13 @@ def cases(tier, seed):
                 mm = cm.with_ctc(m, t)
                 for w in WRITERS:
                     yield ('W', w, mm)
-    for m in _special_models():
+    from . import families
+    for m in list(_special_models()) + list(families.models()):
         for w in WRITERS:
             yield ('W', w, m)
+    for t in families.deep_trees()[::3]:
+        for w in WRITERS:
+            yield ('W', w, cm.on_carrier([t]))
     seeds = SEEDS[tier]
     locs = QUICK_LOCALES if tier == 'quick' else tuple(LOCALES)
     rot = seed % len(seeds)
